@@ -76,6 +76,17 @@ def greedy_ctc(dense, chars):
     return ''.join(out)
 
 
+def _char_table(chars, variant):
+    """Per-line character tables: the page's table, a permuted one, or one with the same length and
+    the same concatenation but split differently (multi-codepoint symbol, empty symbol)."""
+    chars = list(chars)
+    if variant == 'samejoin' and len(chars) >= 2:
+        return ['', chars[0] + chars[1]] + chars[2:]
+    if variant:
+        return chars[::-1]
+    return chars
+
+
 def build_line(line_spec, chars, line_id, y=40, width=200):
     from pero_ocr.core.layout import TextLine
     frames = int(line_spec['frames'])
@@ -99,7 +110,7 @@ def build_line(line_spec, chars, line_id, y=40, width=200):
         heights=[20.0, 6.0],
         transcription=transcription,
         logits=logits,
-        characters=(list(chars)[::-1] if line_spec.get('chars_variant') else list(chars)) + [ZWSP],
+        characters=_char_table(chars, line_spec.get('chars_variant')) + [ZWSP],
         logit_coords=logit_coords,
         index=None)
 
